@@ -280,7 +280,7 @@ pub fn get_status_result(
     proof { lemma_count_all(rule@, Status::SKIP, rule@.len()); }
 
 
-    if expected == Status::SKIP && all_skipped > 0 {
+    if expected == Status::SKIP && all_skipped == rule.len() {
         return (Some(expected), statuses);
     }
 
